@@ -756,7 +756,8 @@ def _min_checks(res):
 def check_C03(res):
     res.rule = ('wigm configured as arithmetic=fixed precision=4 must give the history of wigm-prf on every profile of the domain (the parametric '
                 'rule with a reference rule\'s parameters yields that rule\'s history); Scottish ties on a tie-rich domain against an independent '
-                'reading of 49(2)(3)/51(2); distinct = tag sequences')
+                'reading of 49(2)(3)/51(2); Minneapolis / CfER / PRF sure-loser batches against the clause (tallies + surplus + write-in votes of the round '
+                '< next tally); distinct = tag sequences')
 
     def per(E, data, rule, opts, p, exc=None):
         if exc is not None:
@@ -788,6 +789,17 @@ def check_C03(res):
         res.evaluations += 1
         res.sig(('scotland', H.action_sig(E)))
         ties(E, data, 'scotland', {}, p)
+    # Minneapolis 167.20 / 167.70(c)(1)c: a batch of certain losers against an independent reading of the clause (their tallies plus
+    # every vote that could still reach them - surplus and the write-in votes of that round - stay below the next candidate)
+    sure = H.sure_losers_factory(res)
+
+    def per_mpls(E, data, rule, opts, p, exc=None):
+        if exc is None:
+            sure(E, data, rule, opts)
+    H.run_counts(res, ['mpls'], res.tier, res.seed + 7, per_mpls, with_withdrawn=True, with_undeclared=True, grid=False,
+                 time_budget=6 if res.tier == 'quick' else 120)
+    H.run_extra(res, H.batch_profiles(res.tier, res.seed), ['mpls', 'cfer-batch', 'wigm-prf-batch'], per_mpls,
+                6 if res.tier == 'quick' else 200, opts_list=({},))
 
 
 CHECKS = {'C14': check_C14, 'C12': check_C12, 'C03': check_C03, 'C15': check_C15, 'C16': check_C16, 'C18': check_C18, 'C19': check_C19}
